@@ -34,6 +34,10 @@ func ZZVerifC18SSH() {
 		got, ok := shmodel.Assigned(script, "OTHER", tag)
 		nd.Assert(ok && bytes.Equal(got, []byte("o")), "C18/ssh/other-variable-intact")
 	}
+	r2, err2 := sb.initSequence(e)
+	nd.Assert(err2 == nil, "C18/ssh/no-error")
+	tag2 := zzTag(shmodel.ReadAll(r2))
+	nd.Assert(len(tag) >= 13 && len(tag2) >= 13 && tag != tag2, "C18/ssh/terminator-fresh-per-script")
 	nd.Reach("C18/ssh/end")
 }
 
